@@ -60,6 +60,10 @@ def units(tier, seed):
                     continue
                 for k in range(2 if tier == "quick" else 8):
                     u.append(dict(kind="single", frame=fr, policy=pol, areas=nd, chunk=[k, 2 if tier == "quick" else 8], tier=tier))
+    # an analyzer grid (8 m x 4 m half-extents) smaller than the evaluated region: rows outside every area rectangle carry no area
+    for fr in ("base_link", "map"):
+        for nd in (1, 3, 9):
+            u.append(dict(kind="single", frame=fr, policy="DEFAULT", areas=nd, chunk=[0, 2 if tier == "quick" else 1], tier=tier, grid=[8.0, 4.0]))
     for fr in ("base_link", "map"):
         for k in range(4):
             u.append(dict(kind="multi", frame=fr, chunk=[k, 4], tier=tier))
@@ -93,8 +97,10 @@ def run_unit(unit, acc):
         for i, (es, gs) in enumerate(sc):
             if i % n != k:
                 continue
-            check_case(dict(kind="single", frame=unit["frame"], policy=unit["policy"], areas=unit["areas"], crit=CRITS[i % 2], ego=ego,
-                            scenes=[[dict(ests=es, gts=gs)]]), acc)
+            c = dict(kind="single", frame=unit["frame"], policy=unit["policy"], areas=unit["areas"], crit=CRITS[i % 2], ego=ego, scenes=[[dict(ests=es, gts=gs)]])
+            if unit.get("grid"):
+                c["grid"] = unit["grid"]
+            check_case(c, acc)
     else:
         idx = 0
         for i in range(0, len(sc) - 4, 7):
@@ -114,7 +120,8 @@ def _wrap(a):
 def check_case(case, acc):
     acc.case()
     fr_id, ego = case["frame"], tuple(case["ego"])
-    ec = F.eval_config("detection", fr_id, dict(max_x_position=30.0, max_y_position=30.0))
+    gx_, gy_ = case.get("grid", (30.0, 30.0))
+    ec = F.eval_config("detection", fr_id, dict(max_x_position=gx_, max_y_position=gy_))
 
     def bad(sig, msg):
         acc.violation(sig, msg + " | frame=%s policy=%s areas=%s crit=%s" % (fr_id, case["policy"], case["areas"], case["crit"]), case)
